@@ -1,0 +1,15 @@
+//go:build verif
+
+package remote
+
+import "github.com/containerd/stargz-snapshotter/cache"
+
+// Verification hook (build tag "verif" only) for property C15. No behaviour change.
+
+// VerifBlobCacheC15 returns the cache of compressed blob chunks (httpcache) of a blob.
+func VerifBlobCacheC15(bl Blob) cache.BlobCache {
+	if b, ok := bl.(*blob); ok {
+		return b.cache
+	}
+	return nil
+}
